@@ -22,8 +22,6 @@ Lemma nostuck_main c s o : SL s -> SB s -> main_handler c s o <> None.
 Proof.
   intros H B M. destruct o; unfold_handlers M.
   all: try (split_all; first [sl_contra H | sb_contra B]; fail).
-  match type of M with context [finish_tasks ?a ?b] => destruct (finish_tasks a b) as [[? ?] ?] end.
-  discriminate M.
 Qed.
 
 (* ---- the rest of a step: user drain, dropped validations, killed tasks ---- *)
@@ -42,17 +40,8 @@ Proof. intros (A & _ & _ & _ & E & F & G) [B1 B2]. split; rewrite ?A, ?E, ?F, ?G
 
 Lemma drain_net ev : forall s s' dr ks, drain s ev = (s', dr, ks) -> same_net s s'.
 Proof.
-  induction ev as [|e t IH]; intros s s' dr ks; cbn.
-  - intros H; injection H as <- _ _. apply same_net_refl.
-  - destruct e.
-    + destruct (hval s p).
-      * destruct (drain s t) as [[a b] c0] eqn:E. intros H; injection H as <- _ _. eapply IH; eauto.
-      * intros H. apply IH in H. exact H.
-    + intros H. apply IH in H. exact H.
-    + destruct (drain (set_hsink (set_hopen s p false) p None) t) as [[a b] c0] eqn:E. intros H; injection H as <- _ _.
-      apply IH in E. exact E.
-    + intros H. eapply IH; eauto.
-    + intros H. eapply IH; eauto.
+  apply (drain_rel same_net); unfold same_net; intros; setters; repeat split; auto.
+  all: destruct H as (A1 & A2 & A3 & A4 & A5 & A6 & A7), H0 as (B1 & B2 & B3 & B4 & B5 & B6 & B7); congruence.
 Qed.
 
 Lemma on_validation_some s p a : on_validation s p a <> None.
